@@ -323,6 +323,59 @@ pub fn edge_value_flows<S: ShortGroupSignatureScheme>(em: &mut Emitter, rng: &mu
             o => em.violation("wide-credential-issuance-failed", format!("{}: issuing a credential with {} claims failed ({})", suite, n, o.class()), json!({"suite": suite, "n": n})),
         }
     }
+    // claims whose representation fields differ from what the credential schema declares for the position, but which the
+    // issuer signs: text claims under `print_friendly: false`, byte claims (incl. non-UTF-8) under `print_friendly: true`,
+    // an empty text. Whatever the issuer signed must be presentable, disclosed or hidden.
+    for (pf_text, pf_bytes) in [(false, true), (true, false), (false, false), (true, true)] {
+        let cs = vec![
+            ClaimSchema { claim_type: ClaimType::Revocation, label: "id".into(), print_friendly: false, validators: vec![] },
+            ClaimSchema { claim_type: ClaimType::Hashed, label: "text".into(), print_friendly: pf_text, validators: vec![] },
+            ClaimSchema { claim_type: ClaimType::Hashed, label: "bytes".into(), print_friendly: pf_bytes, validators: vec![] },
+            ClaimSchema { claim_type: ClaimType::Hashed, label: "empty".into(), print_friendly: pf_text, validators: vec![] },
+            ClaimSchema { claim_type: ClaimType::Number, label: "n".into(), print_friendly: pf_bytes, validators: vec![] },
+        ];
+        let schema = match CredentialSchema::new(Some("repr"), None, &[], &cs) {
+            Ok(s) => s,
+            Err(_) => continue,
+        };
+        let (_public, mut issuer) = Issuer::<S>::new(&schema);
+        let claims: Vec<ClaimData> = vec![
+            RevocationClaim::from(format!("repr-{}", rng.below(1 << 20))).into(),
+            HashedClaim::from("some text").into(),
+            HashedClaim::from(vec![0xffu8, 0x00, 0x80, 0x41]).into(),
+            HashedClaim::from("").into(),
+            NumberClaim::from(-3).into(),
+        ];
+        let b = match call(|| issuer.sign_credential(&claims)) {
+            Out::Ok(b) => b,
+            o => {
+                em.count(&format!("edge:representation-issuance-{}", o.class()));
+                continue;
+            }
+        };
+        for disclosed in [vec!["text", "bytes", "empty", "n"], vec!["text"], vec!["bytes"], vec![]] {
+            em.oracle_case(&format!("{} edge representation pf_text={} pf_bytes={} disclosed={:?}", suite, pf_text, pf_bytes, disclosed));
+            em.count("edge:representation");
+            let sig = SignatureStatement { disclosed: disclosed.iter().map(|s| s.to_string()).collect(), id: "sig0".to_string(), issuer: b.issuer.clone() };
+            let rev = RevocationStatement { id: "rev0".into(), reference_id: "sig0".into(), accumulator: b.issuer.revocation_registry, verification_key: b.issuer.revocation_verifying_key, claim: 0 };
+            let stmts: Vec<Statements<S>> = vec![sig.into(), rev.into()];
+            let pschema = PresentationSchema::new_with_id(&stmts, "repr");
+            let mut creds: indexmap::IndexMap<String, credx::presentation::PresentationCredential<S>> = indexmap::IndexMap::new();
+            creds.insert("sig0".into(), b.credential.clone().into());
+            let nonce = rng.bytes(16);
+            let ok = match call(|| Presentation::create(&creds, &pschema, &nonce)) {
+                Out::Ok(p) => call(|| p.verify(&pschema, &nonce)).is_ok(),
+                _ => false,
+            };
+            if !ok {
+                em.violation(
+                    "honest-verify-rejected:representation",
+                    format!("{}: the issuer signed text / byte claims under a schema declaring print_friendly text={} bytes={}, but the honest presentation disclosing {:?} is not created / accepted", suite, pf_text, pf_bytes, disclosed),
+                    json!({"suite": suite, "pf_text": pf_text, "pf_bytes": pf_bytes, "disclosed": disclosed}),
+                );
+            }
+        }
+    }
 }
 
 /// credentials obtained through the blind issuance flow (hidden link secret / several hidden claims) present like any other
